@@ -663,16 +663,20 @@ func (d *Decimal) Modf(integ, frac *Decimal) {
 	}
 
 	neg := d.Negative
+	// integ or frac may alias d, so d's exponent is saved and d is always copied
+	// before the other output is overwritten.
+	dExponent := d.Exponent
 
 	// No fractional part.
 	if d.Exponent > 0 {
+		if integ != nil {
+			integ.Set(d)
+		}
 		if frac != nil {
+			frac.Form = Finite
 			frac.Negative = neg
 			frac.Exponent = 0
 			frac.Coeff.SetInt64(0)
-		}
-		if integ != nil {
-			integ.Set(d)
 		}
 		return
 	}
@@ -680,13 +684,14 @@ func (d *Decimal) Modf(integ, frac *Decimal) {
 	exp := -int64(d.Exponent)
 	// d < 0 because exponent is larger than number of digits.
 	if exp > nd {
+		if frac != nil {
+			frac.Set(d)
+		}
 		if integ != nil {
+			integ.Form = Finite
 			integ.Negative = neg
 			integ.Exponent = 0
 			integ.Coeff.SetInt64(0)
-		}
-		if frac != nil {
-			frac.Set(d)
 		}
 		return
 	}
@@ -697,6 +702,7 @@ func (d *Decimal) Modf(integ, frac *Decimal) {
 	var icoeff *BigInt
 	if integ != nil {
 		icoeff = &integ.Coeff
+		integ.Form = Finite
 		integ.Exponent = 0
 		integ.Negative = neg
 	} else {
@@ -707,7 +713,8 @@ func (d *Decimal) Modf(integ, frac *Decimal) {
 
 	if frac != nil {
 		icoeff.QuoRem(&d.Coeff, e, &frac.Coeff)
-		frac.Exponent = d.Exponent
+		frac.Form = Finite
+		frac.Exponent = dExponent
 		frac.Negative = neg
 	} else {
 		// This is the frac == nil, which means integ must not be nil since they both
